@@ -74,7 +74,7 @@ Definition generic_x86 (rw : row) (first : bool) (rg : regs) (m : mem) : cb_resu
     | None => CbErrV rg                                       (* CouldNotRecoverReturnAddress *)
     | Some ra =>
       if (cfa =? s) && (ra =? i) then CbErrV rg               (* DidNotAdvance *)
-      else if negb first && (cfa <? s) then CbErrV rg         (* StackPointerMovedBackwards *)
+      else if negb first && (cfa <=? s) then CbErrV rg        (* StackPointerMovedBackwards (<=: fix for S9a) *)
       else CbUncacheable ra (set_sp (set_bp (set_ip rg ra) new_bp) cfa)
     end
   end.
